@@ -241,7 +241,7 @@ func driveC05(c *h.Ctx) error {
 				return err
 			}
 			vs, _ := gv.CoqValue(reflect.ValueOf(ms).Elem())
-			if vout != vs {
+			if gv.NormalizeTerm(vout) != gv.NormalizeTerm(vs) {
 				caseJSON["first_difference"] = gv.Diff(reflect.ValueOf(ms).Elem(), reflect.ValueOf(out).Elem())
 				c.Fail("C05/gate/valid-element-lost-or-altered", "decoding the encoding at "+cas.Ver.String()+" does not give back the elements valid at that version", caseJSON)
 			}
@@ -270,7 +270,7 @@ func driveC05(c *h.Ctx) error {
 				}
 				gs, _ := gv.CoqValue(reflect.ValueOf(got).Elem())
 				ws, _ := gv.CoqValue(reflect.ValueOf(want).Elem())
-				if gs != ws {
+				if gv.NormalizeTerm(gs) != gv.NormalizeTerm(ws) {
 					cj["first_difference"] = gv.Diff(reflect.ValueOf(want).Elem(), reflect.ValueOf(got).Elem())
 					c.Fail("C05/decode/later-element-dropped", fmt.Sprintf("a 1.4 encoding read under header version %s loses content", v), cj)
 				}
